@@ -148,18 +148,7 @@ func (f *Feed) Zip(o ZipOpts) []byte {
 		if err != nil {
 			panic("harness: zip: " + err.Error())
 		}
-		bom := o.BOM && i == 0
-		if i < len(o.BOMs) && o.BOMs[i] {
-			bom = true
-		}
-		body := tb.CSV(o.CRLF, bom)
-		if tb.Raw == nil && (o.QuoteAll || o.BlankLines > 0) {
-			body = tb.csvStyled(o.CRLF, bom, o.QuoteAll, o.BlankLines, i)
-		}
-		if o.NoFinalNewline && tb.Raw == nil {
-			body = bytes.TrimRight(body, "\r\n")
-		}
-		w.Write(body)
+		w.Write(f.MemberBody(i, o))
 	}
 	if o.Comment != "" {
 		zw.SetComment(o.Comment)
@@ -168,6 +157,23 @@ func (f *Feed) Zip(o ZipOpts) []byte {
 		panic("harness: zip: " + err.Error())
 	}
 	return buf.Bytes()
+}
+
+// MemberBody is the content of the i-th member as Zip writes it.
+func (f *Feed) MemberBody(i int, o ZipOpts) []byte {
+	tb := f.Tables[i]
+	bom := o.BOM && i == 0
+	if i < len(o.BOMs) && o.BOMs[i] {
+		bom = true
+	}
+	body := tb.CSV(o.CRLF, bom)
+	if tb.Raw == nil && (o.QuoteAll || o.BlankLines > 0) {
+		body = tb.csvStyled(o.CRLF, bom, o.QuoteAll, o.BlankLines, i)
+	}
+	if o.NoFinalNewline && tb.Raw == nil {
+		body = bytes.TrimRight(body, "\r\n")
+	}
+	return body
 }
 
 // ZipRaw builds an archive from raw member contents (used by byte/reader fault campaigns).
